@@ -224,20 +224,20 @@ M('c19-twin-rename-order', 'C19', CIRC, "        if old_label in self._inputs:\n
 # ---------------------------------------------------------------- C20
 VAL = 'cirbo/core/circuit/validation.py'
 M('c20-exit-in-visited', 'C20', CIRC, "            elif gate_states[current_elem.label] == TraverseState.ENTERED:\n                on_exit_hook(current_elem, gate_states)\n                gate_states[current_elem.label] = TraverseState.VISITED\n                queue.pop(pop_index)\n\n            elif gate_states[current_elem.label] == TraverseState.VISITED:\n                queue.pop(pop_index)",
-  "            elif gate_states[current_elem.label] == TraverseState.ENTERED:\n                gate_states[current_elem.label] = TraverseState.VISITED\n                queue.pop(pop_index)\n\n            elif gate_states[current_elem.label] == TraverseState.VISITED:\n                on_exit_hook(current_elem, gate_states)\n                queue.pop(pop_index)", 'C20.STATE')
+  "            elif gate_states[current_elem.label] == TraverseState.ENTERED:\n                gate_states[current_elem.label] = TraverseState.VISITED\n                queue.pop(pop_index)\n\n            elif gate_states[current_elem.label] == TraverseState.VISITED:\n                on_exit_hook(current_elem, gate_states)\n                queue.pop(pop_index)", 'C20.')
 M('c20-enter-after-children', 'C20', CIRC, "                on_enter_hook(current_elem, gate_states)\n                gate_states[current_elem.label] = TraverseState.ENTERED\n\n                for child in _next_getter(current_elem):\n                    on_discover_hook(self.get_gate(child), gate_states)\n                    if gate_states[child] == TraverseState.UNVISITED:\n                        queue.append(child)\n",
-  "                gate_states[current_elem.label] = TraverseState.ENTERED\n\n                for child in _next_getter(current_elem):\n                    on_discover_hook(self.get_gate(child), gate_states)\n                    if gate_states[child] == TraverseState.UNVISITED:\n                        queue.append(child)\n                on_enter_hook(current_elem, gate_states)\n", 'C20.STATE')
-M('c20-enqueue-entered', 'C20', CIRC, "                    if gate_states[child] == TraverseState.UNVISITED:\n                        queue.append(child)", "                    if gate_states[child] != TraverseState.VISITED:\n                        queue.append(child)", 'C20.STATE')
-M('c20-dfs-front', 'C20', CIRC, "        elif mode == TraverseMode.DFS:\n            pop_index = -1", "        elif mode == TraverseMode.DFS:\n            pop_index = 0", 'C20.STATE')
-M('c20-start-live-list', 'C20', CIRC, "        elif inverse:\n            queue = list(self.inputs)\n        else:\n            queue = list(self.outputs)", "        elif inverse:\n            queue = list(self.inputs)\n        else:\n            queue = self.outputs", 'C20.STATE')
-M('c20-unvisited-all', 'C20', CIRC, "            for label in self._gates:\n                if gate_states[label] == TraverseState.UNVISITED:\n                    unvisited_hook(self.get_gate(label), gate_states)", "            for label in self._gates:\n                if gate_states[label] != TraverseState.VISITED:\n                    unvisited_hook(self.get_gate(label), gate_states)", 'C20.UNVIS')
-M('c20-unvisited-topsort-dir', 'C20', CIRC, "            for _gate in self.top_sort(inverse=True):\n                if gate_states[_gate.label] == TraverseState.UNVISITED:", "            for _gate in self.top_sort():\n                if gate_states[_gate.label] == TraverseState.UNVISITED:", 'C20.UNVIS')
-M('c20-dual-pred', 'C20', CIRC, "            (lambda elem: len(elem.operands))\n            if inverse\n            else (lambda elem: len(self.get_gate_users(elem.label)))", "            (lambda elem: len(elem.operands))\n            if inverse\n            else (lambda elem: len(elem.operands))", 'C20.DUAL')
-M('c20-dual-next', 'C20', CIRC, "        _next_getter = (\n            (lambda elem: self.get_gate_users(elem.label))\n            if inverse\n            else (lambda elem: elem.operands)\n        )", "        _next_getter = (\n            (lambda elem: elem.operands)\n            if inverse\n            else (lambda elem: self.get_gate_users(elem.label))\n        )", 'C20.DUAL')
-M('c20-kahn-set', 'C20', CIRC, "            for successor in _successors_getter(current_elem):\n                indegree_map[successor] -= 1", "            for successor in set(_successors_getter(current_elem)):\n                indegree_map[successor] -= 1", 'C20.KAHN')
-M('c20-kahn-yield-cond', 'C20', CIRC, "                    queue.append(successor)\n            yield current_elem", "                    queue.append(successor)\n            if current_elem.gate_type != gate.INPUT or inverse:\n                yield current_elem", 'C20.KAHN')
-M('c20-cycle-visited', 'C20', VAL, "        if gate_states[gate.label] == TraverseState.ENTERED:", "        if gate_states[gate.label] == TraverseState.VISITED:", 'C20.CYCLE')
-M('c20-bfs-hooks', 'C20', CIRC, "            TraverseMode.BFS,\n            start_gates,\n            inverse=inverse,", "            TraverseMode.BFS,\n            start_gates,\n            inverse=not inverse,", 'C20.ENTRY')
+  "                gate_states[current_elem.label] = TraverseState.ENTERED\n\n                for child in _next_getter(current_elem):\n                    on_discover_hook(self.get_gate(child), gate_states)\n                    if gate_states[child] == TraverseState.UNVISITED:\n                        queue.append(child)\n                on_enter_hook(current_elem, gate_states)\n", 'C20.')
+M('c20-enqueue-entered', 'C20', CIRC, "                    if gate_states[child] == TraverseState.UNVISITED:\n                        queue.append(child)", "                    if gate_states[child] != TraverseState.VISITED:\n                        queue.append(child)", None)  # behaves the same on every acyclic circuit: the structural rule used to flag it
+M('c20-dfs-front', 'C20', CIRC, "        elif mode == TraverseMode.DFS:\n            pop_index = -1", "        elif mode == TraverseMode.DFS:\n            pop_index = 0", 'C20.')
+M('c20-start-live-list', 'C20', CIRC, "        elif inverse:\n            queue = list(self.inputs)\n        else:\n            queue = list(self.outputs)", "        elif inverse:\n            queue = list(self.inputs)\n        else:\n            queue = self.outputs", 'C20.')
+M('c20-unvisited-all', 'C20', CIRC, "            for label in self._gates:\n                if gate_states[label] == TraverseState.UNVISITED:\n                    unvisited_hook(self.get_gate(label), gate_states)", "            for label in self._gates:\n                if gate_states[label] != TraverseState.VISITED:\n                    unvisited_hook(self.get_gate(label), gate_states)", None)  # behaves the same on every acyclic circuit: the structural rule used to flag it
+M('c20-unvisited-topsort-dir', 'C20', CIRC, "            for _gate in self.top_sort(inverse=True):\n                if gate_states[_gate.label] == TraverseState.UNVISITED:", "            for _gate in self.top_sort():\n                if gate_states[_gate.label] == TraverseState.UNVISITED:", 'C20.')
+M('c20-dual-pred', 'C20', CIRC, "            (lambda elem: len(elem.operands))\n            if inverse\n            else (lambda elem: len(self.get_gate_users(elem.label)))", "            (lambda elem: len(elem.operands))\n            if inverse\n            else (lambda elem: len(elem.operands))", 'C20.')
+M('c20-dual-next', 'C20', CIRC, "        _next_getter = (\n            (lambda elem: self.get_gate_users(elem.label))\n            if inverse\n            else (lambda elem: elem.operands)\n        )", "        _next_getter = (\n            (lambda elem: elem.operands)\n            if inverse\n            else (lambda elem: self.get_gate_users(elem.label))\n        )", 'C20.')
+M('c20-kahn-set', 'C20', CIRC, "            for successor in _successors_getter(current_elem):\n                indegree_map[successor] -= 1", "            for successor in set(_successors_getter(current_elem)):\n                indegree_map[successor] -= 1", 'C20.')
+M('c20-kahn-yield-cond', 'C20', CIRC, "                    queue.append(successor)\n            yield current_elem", "                    queue.append(successor)\n            if current_elem.gate_type != gate.INPUT or inverse:\n                yield current_elem", 'C20.')
+M('c20-cycle-visited', 'C20', VAL, "        if gate_states[gate.label] == TraverseState.ENTERED:", "        if gate_states[gate.label] == TraverseState.VISITED:", 'C20.')
+M('c20-bfs-hooks', 'C20', CIRC, "            TraverseMode.BFS,\n            start_gates,\n            inverse=inverse,", "            TraverseMode.BFS,\n            start_gates,\n            inverse=not inverse,", 'C20.')
 M('c20-twin-rename', 'C20', CIRC, "                for child in _next_getter(current_elem):\n                    on_discover_hook(self.get_gate(child), gate_states)\n                    if gate_states[child] == TraverseState.UNVISITED:\n                        queue.append(child)",
   "                for nxt in _next_getter(current_elem):\n                    on_discover_hook(self.get_gate(nxt), gate_states)\n                    if gate_states[nxt] == TraverseState.UNVISITED:\n                        queue.append(nxt)", None)
 
